@@ -467,6 +467,9 @@ impl<'a> GeneratorState<'a> {
             Expr::Integer(i) => Ok(ExprType::Immediate(*i)),
             Expr::BinOp { lhs, op, rhs } => match op {
                 Operation::Assign => {
+                    // Y saved by an enclosing expression (this assignment loads a parameter in the middle of it)
+                    // is not restored here
+                    let y_saved_outside = self.saved_y;
                     let left = self.generate_expr(lhs, pos, high_byte, high_byte)?;
                     // Y saved for a subscript of the left hand side indexes the store of the high byte as well
                     let y_saved_for_left = self.saved_y;
@@ -503,7 +506,7 @@ impl<'a> GeneratorState<'a> {
                             _ => (),
                         };
                     }
-                    if self.saved_y {
+                    if self.saved_y && !y_saved_outside {
                         self.asm_restore_y();
                         self.saved_y = false;
                         self.tmp_in_use = false;
